@@ -372,6 +372,9 @@ func AtomicMaps(w *load.World) map[string]string {
 	} else {
 		m["cluster.ShardManager.shardStore"] = "cluster.ShardManager.shardLock"
 	}
+	for k, v := range m {
+		m[k] = resolveLockClass(w, v)
+	}
 	return m
 }
 
@@ -453,7 +456,46 @@ func guardRows(w *load.World) []guardRow {
 	if f, l := shardRegistryRow(w); f != "" {
 		out[0].Field, out[0].Lock = f, l
 	}
+	for i := range out {
+		out[i].Lock = resolveLockClass(w, out[i].Lock)
+	}
 	return out
+}
+
+// resolveLockClass: a lock named "pkg.Type.field" in a table. When the struct no longer has a
+// field of that name but has exactly one mutex (renamed, or embedded: "ls.Lock()"), that one is
+// meant: the lock is recognised by its type, the name in the table is the one of the pinned tree.
+func resolveLockClass(w *load.World, cls string) string {
+	parts := strings.Split(cls, ".")
+	if len(parts) != 3 {
+		return cls
+	}
+	for path, pkg := range w.ByPath {
+		if !strings.HasSuffix(path, "/"+parts[0]) && path != parts[0] {
+			continue
+		}
+		tn, ok := pkg.Types.Scope().Lookup(parts[1]).(*types.TypeName)
+		if !ok {
+			continue
+		}
+		st, ok := tn.Type().Underlying().(*types.Struct)
+		if !ok {
+			continue
+		}
+		var mutexes []string
+		for i := 0; i < st.NumFields(); i++ {
+			if st.Field(i).Name() == parts[2] {
+				return cls
+			}
+			if t := st.Field(i).Type().String(); t == "sync.Mutex" || t == "sync.RWMutex" {
+				mutexes = append(mutexes, st.Field(i).Name())
+			}
+		}
+		if len(mutexes) == 1 {
+			return parts[0] + "." + parts[1] + "." + mutexes[0]
+		}
+	}
+	return cls
 }
 
 func Guard(w *load.World, ls *lockset.Result, c *core.Collector) {
